@@ -547,6 +547,12 @@ Render(path, key, snap) ==
 
 Judged == {"account", "delegatee", "reward", "gov_params", "stakes/total_power"}
 
+\* serving a query never alters the consensus state (digest of the full projection before = after)
+QueryReadOnly(e) ==
+  IF e.ev = "Query" /\ "stateSame" \in DOMAIN e /\ ~e.stateSame
+  THEN {IF e.path = "vm_call" THEN "C17: a read-only contract call changed state" ELSE "C19: serving a query changed the state"}
+  ELSE {}
+
 C19(e, mon) ==
   IF e.ev = "Query" /\ e.path \in Judged /\ e.panic = "" THEN
     LET hh == IF e.qh = 0 THEN e.lastH ELSE e.qh
